@@ -2,6 +2,7 @@
 from __future__ import annotations
 
 import ast
+import re
 
 from ..core import AnalysisError, RuleResult
 from ..extract import helper_entries
@@ -231,6 +232,73 @@ def rule_r4(ctx):
     return rr
 
 
+CPYTHON_MIN_NESTING_LIMIT = 20  # CO_MAXBLOCKS: the smallest static nesting limit of the compiler
+
+
+def rule_r5(ctx):
+    """The converter refuses no program for its SIZE that CPython accepts.  CPython has no limit on
+    the LENGTH of a block, a target list, an argument list ...; its smallest static NESTING limit is
+    20 (statically nested blocks).  A `raise` guarded by `len(<list of user nodes>) <cmp> N` is always
+    a violation; one guarded by the depth of a nesting stack is a violation when the deepest nesting
+    it still accepts is below 20 (the order of push and test inside the function is taken into account)."""
+    rr = RuleResult("C17-R5", "no rejection by size: no limit on lengths of user lists, nesting limits not below CPython's")
+    rr.floor = 5
+    cg = ctx.cg
+    prog = ctx.prog
+    reach = cg.reachable(["oneliner:convert_code_string"])
+
+    def limits(fi, ifnode):
+        out = []
+        for c in ast.walk(ifnode.test):
+            if not isinstance(c, ast.Compare) or len(c.ops) != 1 or not isinstance(c.ops[0], (ast.Gt, ast.GtE)):
+                continue
+            a, b = c.left, c.comparators[0]
+            try:
+                v = prog.eval_const(fi.module, b)
+            except Exception:
+                v = None
+            if isinstance(v, bool) or not isinstance(v, int) or v <= 1:
+                continue
+            if not (isinstance(a, ast.Call) and isinstance(a.func, ast.Name) and a.func.id == "len" and len(a.args) == 1):
+                continue
+            subject = ast.unparse(a.args[0])
+            if re.search(r"\bnode\b", subject) or re.search(r"\.(body|orelse|targets|elts|args|keywords|names|values|generators|decorator_list|bases)$", subject):
+                out.append((c, v, "length", None))
+                continue
+            # a stack: was an element pushed earlier in the same function (before the test)?
+            pushed_before = any(
+                isinstance(x, ast.Call) and isinstance(x.func, ast.Attribute) and x.func.attr in ("append", "insert") and ast.unparse(x.func.value) == subject and x.lineno < ifnode.lineno
+                for x in ast.walk(fi.node)
+            )
+            strict = isinstance(c.ops[0], ast.Gt)
+            if pushed_before:
+                deepest = v if strict else v - 1
+            else:
+                deepest = v + 1 if strict else v
+            out.append((c, v, "nesting", deepest))
+        return out
+
+    for fq in sorted(reach):
+        fi = cg.funcs[fq]
+        if fi.module.name.endswith("__main__"):
+            continue
+        for n in ast.walk(fi.node):
+            if isinstance(n, ast.If) and any(isinstance(x, ast.Raise) for st in n.body for x in ast.walk(st)):
+                rr.instances += 1
+                what = f"{fi.qualname}|raise@{n.lineno}"
+                bad = None
+                for c, v, kind, deepest in limits(fi, n):
+                    if kind == "length":
+                        bad = f"`{ast.unparse(c)[:70]}` limits the LENGTH of a list of the user's program; CPython has no such limit"
+                    elif deepest < CPYTHON_MIN_NESTING_LIMIT:
+                        bad = f"`{ast.unparse(c)[:70]}` accepts a nesting of at most {deepest}; CPython accepts {CPYTHON_MIN_NESTING_LIMIT} statically nested blocks (the 21st is refused)"
+                if bad:
+                    rr.fail(f"C17-R5|{fi.qualname}|size-limit", f"{fi.where()} line {n.lineno}: the conversion raises by size: {bad}", where=fi.where(), what=what)
+                else:
+                    rr.ok(what, sample={"rule": "C17-R5", "site": f"{fi.where()}:{n.lineno}", "guard": ast.unparse(n.test)[:70], "verdict": "no size limit below CPython's"})
+    return rr
+
+
 def rule_c05ib(ctx):
     """A block nests one guard per INTERRUPT seen so far, not one per statement: that is what the
     strict comparison against a refreshed saved counter in _iter_branch guarantees (shared rule
@@ -240,4 +308,4 @@ def rule_c05ib(ctx):
     return rule_ib(ctx)
 
 
-RULES = [("C17-R4", rule_r4), ("C17-R1", rule_r1), ("C17-R2", rule_r2), ("C17-R3", rule_r3), ("C05-IB", rule_c05ib)]
+RULES = [("C17-R4", rule_r4), ("C17-R1", rule_r1), ("C17-R2", rule_r2), ("C17-R3", rule_r3), ("C17-R5", rule_r5), ("C05-IB", rule_c05ib)]
